@@ -216,3 +216,15 @@ Theorem C02_reader_is_source : forall fuel cur (toks : list bytes) t, (length to
     /\ Forall2 ImpProofsK.fq_item_ok (Bio.Model.Fastq.decode_toks t toks) out.
 Proof. exact ImpProofsK.imp_fastq_Reader. Qed.
 Print Assumptions C02_reader_is_source.
+
+(* ---- the round trip, about the translated source --------------------------------------------------------
+   The translated Reader, given the lines bufio.Scanner cuts the written file into
+   (Base.scan_tokens), yields exactly the records. *)
+From Bio.Proofs Require ImpProofsW.
+Theorem C02_roundtrip_is_source : forall rs fuel cur, Forall fq_ok rs ->
+  (length (scan_tokens (concat (map write rs))) + 1 < fuel)%nat ->
+  exists s' out,
+    ImpGen.imp_fastqrd_Reader fuel (GoSem.Scanner cur (scan_tokens (concat (map write rs))) 0%Z false) = GoSem.Ret (s', out)
+    /\ Forall2 ImpProofsK.fq_item_ok (map Rec rs) out.
+Proof. exact ImpProofsW.fastq_roundtrip_src. Qed.
+Print Assumptions C02_roundtrip_is_source.
